@@ -124,9 +124,14 @@ def run(ctx, res):
                           "and this target is taken for a forward seek and the dropped source's entries are lost" % sorted(set(e.a for e in moved)),
                           seek.loc(moved[-1].node), p.describe(seek))
         if p.end == "exit":
-            first = [e for e in evs if not (e.kind == "store" and e.a.isidentifier())][:2]
-            keys = sorted(e.a.split("->")[-1] for e in first if e.kind == "store")
-            res.check(keys == ["finished", "pending"] and all(e.b == ("c", 0) for e in first), "C05.R3", site(seek, "entry"),
+            fin_st = [e for e in evs if e.kind == "store" and e.a.endswith("->finished")]
+            pen_st = [e for e in evs if e.kind == "store" and e.a.endswith("->pending")]
+            moving = [i for i, e in enumerate(evs) if e.kind == "call" and e.a in ("mtbl_iter_seek", "heap_pop", "heap_replace", "heap_clip", "heap_add", "heap_heapify", "entry_fill")]
+            firstmove = moving[0] if moving else len(evs)
+            okclear = bool(fin_st) and bool(pen_st) and fin_st[0].b == ("c", 0) and all(e.b == ("c", 0) for e in pen_st) and \
+                evs.index(fin_st[0]) < firstmove and evs.index(pen_st[0]) < firstmove
+            first = [e for e in evs if e.kind == "store" and not e.a.isidentifier()][:2]
+            res.check(okclear, "C05.R3", site(seek, "entry"),
                       "seek clears finished and pending before anything else",
                       "seek does not start by clearing finished and pending (%s)" % [repr(e) for e in first], seek.loc(seek.body))
             res.check(p.ret() == ("c", OKV), "C05.R3", site(seek, "return"), "seek returns success",
